@@ -452,7 +452,8 @@ ebpps_sample<T, A>::const_iterator::const_iterator(const ebpps_sample* sample) :
     idx_ = PARTIAL_IDX;
   }
 
-  if (sample_->c_== 0.0 || (sample_->data_.size() == 0 && !sample_->has_partial_item())) { sample_ = nullptr; }
+  // nothing to visit: no full items and the partial item (if any) is not part of this pass
+  if (sample_->c_== 0.0 || (sample_->data_.size() == 0 && !use_partial_)) { sample_ = nullptr; }
 }
 
 template<typename T, typename A>
